@@ -149,3 +149,87 @@ claim("C16",
       "lint/internal/rules/c16.go (six call kinds, reader/mutator classification of AccountAccessor and AccountManager methods, permitted writers); static "
       "call reachability inside package vm stops at the call kinds and at run (the nested frame is constrained through the inherited readOnly flag); the "
       "state-writing precompile setRewardValue is outside the writes flag and only its membership in a closed set is decided")
+
+claim("C08",
+      "ordering / heeded-error dominance across closures and helpers + value flow of cursors + evaluated emptiness guard + checksum written⇒verified + recovery-hook reachability + errcheck of the commit path (SSA/CFG)",
+      "Decides, for all paths of the storage code at once, the structural necessary conditions of crash durability: FileUtilsFlush writes, syncs and only then "
+      "reports success; FileQueue.Put/PutBatch hand a record to the asynchronous bitcask writer and return nil only after the flush of exactly that record "
+      "succeeded, and the append cursors advance by the flushed length; BitCask.Put orders data ≺ LevelDB position ≺ cursor and the writer reports Done only "
+      "after a successful put and its write extension; blockCommit puts block, height index and every account record into the one committed batch, commits "
+      "(heeded) before leveldb.SetCurrentBlock, and moves the pointer before the candidate file is rewritten; SetStableBlock advances LastConfirm and prunes only "
+      "after blockCommit succeeded; saveToStore (SetBlock, Manager.Save → Account.Save → trie commits, every error heeded) succeeds before UpdateStable; tmp.data "
+      "is removed only on the evaluated `len(Index)==0` edge under IndexRW, entries leave the index only for the last pending write reported on DoneChan; start-up "
+      "opens the writer, replays every intact record, treats a torn tail (ErrRecordBroken) as end of log and reads the stable block only after the replay; "
+      "RecordHead.Crc is written from CheckSum(body) and compared before a record is handed out; no error is dropped in the 170 store functions on the "
+      "commit/start-up path (2 reasoned exemptions). Reported and recorded as known findings: contextHead.Crc is the constant 0 and never checked and "
+      "RunContext.load drops the decode error (D27); the recovery hook commitStableBlock/AfterScan is unreachable from the write extension BeansDB.Start "
+      "installs (D25). It does not decide behaviour under an actual crash or torn write (nothing is interrupted or compared), LevelDB's own durability "
+      "(LevelDBDatabase.Put passes nil write options: index entries, cursors and the stable pointer are not synced by the call that writes them), nor that a "
+      "restarted node equals a continuous one.",
+      "go/types + go/ssa of x/tools v0.29.0, default build configuration; closure resolution assumes a function literal bound to a once-assigned local variable "
+      "runs synchronously where it is called; reachability for C08.9/C08.7 follows static calls, function literals, go/defer and interface invocations to every "
+      "repository implementation (callbacks out of dependencies, e.g. rlp reflection, are not followed); os.File.Write is trusted to return an error on a short "
+      "write; the frozen anchors and the two errcheck exemptions in lint/internal/rules/c08.go, c08b.go")
+
+claim("C03",
+      "guarded-action dominance + comparison-shape checks + closed caller/writer sets + value provenance of the dedup key (SSA/CFG)",
+      "Decides, for all paths at once, the structural necessary conditions of finality on one node: StableBlockStore.SetStableBlock is reachable "
+      "only inside StableManager.UpdateStable behind a strict `block.Height > stable.Height` test and the heeded quorum test, whose every `true` "
+      "outcome is `len(Confirms)+1 >= q` with q a ceil(2/3) quantity of the deputy table; nobody else calls SetStableBlock / blockCommit / "
+      "leveldb.SetCurrentBlock or writes ChainDatabase.LastConfirm, and the block made stable is taken from the unconfirmed tree and committed "
+      "along its path to the old stable block; Block.Confirms has a closed writer set and every signature VerifyNewConfirms returns was appended "
+      "behind an accepted RecoverNodeID over the block hash, a non-nil GetDeputyByNodeID and a membership test keyed by the *recovered node id* "
+      "(set seeded with the header signer and the existing confirms; the D4 repair is discharged, reverting it is caught); UpdateStable precedes the "
+      "fork update, which re-picks the head with ChooseNewFork(stable) when the current fork was cut. One recorded finding: TryConfirm can count the "
+      "node itself twice through the other encoding of its own signature (consequence of D6). It does not decide fork-choice correctness, agreement "
+      "between nodes, the arithmetic of the threshold, nor that the unconfirmed tree holds only descendants of the stable block.",
+      "go/types + go/ssa of x/tools v0.29.0, default build configuration; frozen caller/writer tables in lint/internal/rules/c03.go; interface calls "
+      "matched by method family (no pointer analysis); guards must live in the named functions (a guard moved into a new helper needs a table update)")
+
+claim("C13",
+      "heeded-guard dominance + value identity of the checked header + write-set scan over the call closure of MineBlock + phi/compare shape of max()",
+      "Narrow structural clauses only. Decides that DPoVP.MineBlock heeds Validator.VerifyMiner on the very header PrepareHeader returned (no "
+      "successful exit and no saveNewBlock without it), that VerifyMiner and VerifyBeforeTxProcess both resolve to verifyMiner with the validator's "
+      "own mineTimeout and deputy table, that this header is what the assembler executes, seals and signs; that Header.Time/MinerAddress/Height/"
+      "ParentHash have a closed writer set in the repository (PrepareHeader, the two codecs, genesis) and none of those writers is among the ~650 "
+      "functions that can run below MineBlock between PrepareHeader and the signature; that Seal stores only roots/GasUsed/DeputyRoot into the header "
+      "it seals and SignData is added only after SignBlock; and that PrepareHeader sets Time = max(parent.Time, now in seconds), Height = parent+1, "
+      "ParentHash = parent.Hash(), MinerAddress = own address of the new height. Slot arithmetic is NOT decided: uniqueness and rotation of the "
+      "in-turn deputy, the modulo/window computation of GetCorrectMiner, agreement of GetNextMineWindow with it, timers of the miner loop.",
+      "go/types + go/ssa; the reach set follows static callees, closures and interface calls by method family inside chain/{consensus,transaction,"
+      "account,vm,types,txpool,deputynode,params}, common/{crypto,merkle}; storage, RLP reflection and logging are leaves (trusted not to receive "
+      "the *Header under construction); positive controls keep the scan from being vacuous")
+
+claim("C10",
+      "sibling agreement of the two deputy-loading sites + value provenance of rank/votes + must-call/order of the ranking feed + comparator shape of the selection sort + restart / fork structural clauses (SSA/CFG)",
+      "Decides, for all paths at once, the structural necessary conditions of election integrity: LoadTopCandidates has exactly two call sites (Seal, "
+      "verifyDeputy), both pass the block's ParentHash and run exactly on the IsSnapshotBlock(own height) branch; Seal puts the loaded list into the body and "
+      "writes its Merkle root into the header of the block it returns; GetCandidatesTop answers for the asked hash; the rank handed to NewDeputyNode is the "
+      "0-based index over the top list cut to DeputyCount and the votes must be that same element's Total (today they are a second read of post-block account "
+      "state: D8, recorded, together with NewTermRecord's votes-order panic it leaves undischarged); Manager.Save feeds CandidatesRanking(newBlockHash, logs of "
+      "type VotesLog) on every successful path before clearing, the logs reach CBlock.Ranking of that block, the all-candidates index is written before updateTop "
+      "reads it; VoteTop.ranking swaps on fewer votes and, only on equality, on the larger address, cut to max_candidate_count at every Rank call; NewChainDataBase "
+      "re-inserts every candidate it ranks into LastConfirm.CandidateTrieDB (D26, fixed); a child block's Top/index are clones of one parent's; every list "
+      "ranked by updateTop must have passed filterUnregisters (the two full re-rank branches do not: new finding, recorded). It does NOT decide that the "
+      "incremental four-branch updateTop equals a full sort over a history, that a restarted node's list equals a never-stopped node's as values, that candidates "
+      "unregistered in earlier blocks leave the index, nor non-emptiness of the snapshot list.",
+      "go/types + go/ssa of x/tools v0.29.0, default build configuration; the frozen rule table in lint/internal/rules/c10.go (anchors: Seal, verifyDeputy, "
+      "DPoVP.LoadTopCandidates, Manager.Save, ChainDatabase.{CandidatesRanking,GetCandidatesTop,SetBlock}, CBlock.{Ranking,updateTop}, VoteTop.{Rank,ranking}, "
+      "NewChainDataBase, NewNormalBlock, NewTermRecord); CandidateLoader has DPoVP as its only non-test implementation (checked on every run); big.Int.Cmp and "
+      "bytes.Compare have their documented meaning")
+
+claim("C12",
+      "validated-use of external amounts (sign test dominance, through decoder helpers) + guarded-action authorisation cuts + value identity of the amount on both sides + closed writer sets + snapshot/revert pairing (SSA/CFG)",
+      "Decides, for all paths of the four asset transactions at once: every flow of IssueAsset.Amount / ReplenishAsset.Amount / TransferAsset.Amount into a "
+      "SetEquityState or SetAssetCodeTotalSupply argument (8 flows) is dominated by a heeded Sign()/Cmp(0) test on the same value whose negative edge cannot reach "
+      "the write (D7 fixed: discharged; only the JSON decoders write those fields); with the accepting edges of each authorisation test removed no equity/supply "
+      "write is reachable (issuer = sender in issue and modify, judgeReplenish's four refusals heeded in replenish, asset id belongs to the asset code, freeze "
+      "test in issue and transfer, caller's equity >= amount for divisible transfers) and the records tested are the records written; issue/replenish add one and "
+      "the same amount (constant 1 only on the !IsDivisible branch) to the supply record and to the receiver's equity on every successful path, transfer credits "
+      "or burns exactly the SSA amount it debits, once per path, debit after credit from a fresh read, no accepting exit between them; outside package account "
+      "the two setters have 5 + 3 call sites, all in the three transactions, and the only subtracting writes are the caller's own debit and the burn; "
+      "TransferAssetTx snapshots before its writes and reverts to that snapshot on the error edge of run. It does NOT decide the invariant sum(equity) = supply "
+      "over histories, non-negativity of equities as values, the journalled undo (C07), nor the bodies of the setters.",
+      "go/types + go/ssa of x/tools v0.29.0, default build configuration; the frozen rule table in lint/internal/rules/c12.go; math/big Add/Sub/Cmp/Sign/NewInt "
+      "have their documented meaning; a non-nil transaction-level error returned by the asset functions makes the caller discard the whole transaction "
+      "(TxProcessor reverts / rejects the block), so only the vm-error edge needs the local revert")
